@@ -185,7 +185,7 @@ fn build(w: &Value) -> Built {
     let mut sends_per_thread: Vec<usize> = Vec::new();
     for k in 0..threads.len() {
         src.push_str(&format!(
-            "(define hold-{k} (mutable-vector (box {a}) (box {b}) (box {c}) (box {d})))\n",
+            "(define hold-{k} (mutable-vector (box {a}) (box {b}) (box {c}) (box {d})))\n(define gb-{k} (box 0))\n",
             k = k,
             a = 7000 + 10 * k,
             b = 7001 + 10 * k,
@@ -245,6 +245,13 @@ fn build(w: &Value) -> Built {
                     ("(let ((gd (lock-acquire! mtx))) (set-box! cnt (+ 1 (unbox cnt))) (lock-release! gd) 0)".to_string(), "0".into())
                 }
                 "gc" => ("(begin (#%gc-collect) 0)".to_string(), "0".into()),
+                // a fresh box, referenced from nowhere else, is assigned to a global of
+                // this thread: while the assignment waits for the heap lock (another
+                // thread may be collecting) the box must stay visible to the collector
+                "setbox" => {
+                    let v = op[2].as_i64().unwrap_or(0);
+                    (format!("(begin (set! gb-{k} (box {v})) (alloc 2) (set! gb-{k} (box (+ 1 (unbox gb-{k})))) (valloc 2) (unbox gb-{k}))", k = k, v = v), (v + 1).to_string())
+                }
                 "suspend" => {
                     // main suspends one of its threads, keeps stopping the world
                     // (allocation, collection, assignment of a global) and resumes it:
@@ -365,7 +372,7 @@ fn gen_workload(rng: &mut Rng, prop: &str, thorough: bool) -> Value {
     // forked state runs on its parent's OS thread, which the monitors' model of
     // one script thread per simulated thread does not represent, and the
     // unchanged tree blocks in un-hooked code on that path (DESIGN.md §12, C15-5)
-    let all = ["work", "alloc", "valloc", "set", "read", "send", "lock", "gc", "tls", "nested", "hof", "shuffle", "shuffle", "suspend"];
+    let all = ["work", "alloc", "valloc", "set", "read", "send", "lock", "gc", "tls", "nested", "hof", "shuffle", "shuffle", "suspend", "setbox", "setbox"];
     let mut kinds: Vec<&str> = all.to_vec();
     rng.shuffle(&mut kinds);
     kinds.truncate(rng.range(2, 7) as usize);
@@ -403,7 +410,7 @@ fn gen_workload(rng: &mut Rng, prop: &str, thorough: bool) -> Value {
                 "suspend" => rng.below(1000),
                 _ => rng.below(3),
             } as i64;
-            if kind == "set" || kind == "boxed" || kind == "suspend" {
+            if kind == "set" || kind == "boxed" || kind == "suspend" || kind == "setbox" {
                 uniq += 1;
                 ops.push(json!([kind, amount, uniq]));
             } else {
@@ -659,7 +666,7 @@ impl Scenario for Threads {
     }
 
     fn rule(&self) -> String {
-        "each evaluation = one forked run of a generated program: main + 1-7 script threads (spawn-native-thread), each a seeded sequence of 1-10 operations out of {computation, box allocation, vector allocation, set! of a shared global with a unique value, checked read of a shared global, channel send, mutex section, explicit collection, thread-local storage, nested spawn+join, allocation inside map, main suspending one of its threads while it allocates / collects / assigns a global and resuming it}; main receives every message through map and joins in a seeded order; forced full collections at rate {0,1/16,1/4,1}, JIT on/off; the token scheduler decides at every instruction dispatch and inside every handshake window (publish, after-finish, before-retract, stop/resume, scan begin/end, heap lock taken); non-trivial = at least 2 script threads; distinct = distinct (workload, event trace)".into()
+        "each evaluation = one forked run of a generated program: main + 1-7 script threads (spawn-native-thread), each a seeded sequence of 1-10 operations out of {computation, box allocation, vector allocation, set! of a shared global with a unique value, checked read of a shared global, channel send, mutex section, explicit collection, thread-local storage, nested spawn+join, allocation inside map, assignment of a fresh box to a global, main suspending one of its threads while it allocates / collects / assigns a global and resuming it}; main receives every message through map and joins in a seeded order; forced full collections at rate {0,1/16,1/4,1}, JIT on/off; the token scheduler decides at every instruction dispatch and inside every handshake window (publish, after-finish, before-retract, stop/resume, scan begin/end, heap lock taken); non-trivial = at least 2 script threads; distinct = distinct (workload, event trace)".into()
     }
     fn assumptions(&self) -> Vec<String> {
         vec![
